@@ -16,9 +16,15 @@ Decided here
     spec   D(tokens) = utf8r(t0 ++ SUM f(t_i)),  f(t) = byte(t[:2]) ++ t[2:] if t[:2] is a hex
     pair else '%' ++ t,   for lists of 1..9 arbitrary byte strings; `decode` itself for every
     input string with at most 8 '%' characters (no bound on its length or content);
-  * the encoder closure: fast path, the already-escaped early return (at most 5 '%'), and
-    "everything else goes byte-wise through the table";
-  * parse_host on the RFC 3986 authority forms and its escape set; unquote_string path-wise.
+  * the encoder closure (the factory is run from its source, then its inner `encoder`): every
+    string of allowed characters is returned as is; every string with a character that is
+    neither allowed nor '%' goes byte-wise through the table; strings of allowed characters
+    and k <= 5 '%' are built piece by piece (escape bodies / the four malformed shapes): with
+    check_is_escaped the string is returned unchanged iff every '%' starts a well-formed
+    escape, else -- and always without the flag -- it goes through the table.  Two lemma
+    harnesses tie that construction to the statement's regular languages;
+  * parse_host on the RFC 3986 authority forms (word equations, decided by cvc5) and its
+    escape set; unquote_string path-wise (without escaped backslashes).
 
 NOT decided (needs induction over the token list / over the string): see NOT_DECIDED and the
 clearly labelled `bounded` stand-in at the end of this module.
@@ -31,7 +37,7 @@ import re as _re
 
 import z3
 
-from pyvc.core import And, ExcVal, Iff, Implies, Ite, Len, Not, Or, Outcome, PyRaise, SStr, Unreached, cur, mk_bool, mk_int, mk_str, _s
+from pyvc.core import _unescape_z3, And, ExcVal, Iff, Len, Not, Outcome, PyRaise, SStr, Unreached, cur, mk_bool, mk_int, mk_str, _s
 from pyvc.harness import harness, stubclass
 
 PROP = 'C10'
@@ -260,6 +266,9 @@ def _hook_slice(ctx, s, start, stop):
     def lit(x):
         return x is None or (isinstance(x, int) and not isinstance(x, bool) and x >= 0)
 
+    inner = ctx.ghost.get('$inner', {}).get(s.t.get_id())
+    if inner is not None and start == 1 and stop == -1:
+        return inner[1]  # the harness built s as '"' ++ inner ++ '"'
     if not (lit(start) and lit(stop)):
         return NotImplemented
     head = ctx.ghost.get('$heads', {}).get(s.t.get_id())
@@ -269,6 +278,44 @@ def _hook_slice(ctx, s, start, stop):
     if stop is None:
         return mk_str(z3.SubString(s.t, a, z3.Length(s.t)), s.kind)
     return mk_str(z3.SubString(s.t, a, max(stop - a, 0)), s.kind)
+
+
+_SUBSTRINGS = {}
+
+
+def _hook_contains(ctx, s, sub):
+    """`x in "literal"` for a symbolic x: x is one of the finitely many substrings of the literal (exact, and a regular language)."""
+    if not (isinstance(sub, SStr) and z3.is_string_value(s.t)):
+        return NotImplemented
+    lit = _unescape_z3(s.t.as_string())
+    if len(lit) > 64:
+        return NotImplemented
+    if lit not in _SUBSTRINGS:
+        subs = sorted({lit[i:j] for i in range(len(lit) + 1) for j in range(i, len(lit) + 1)})
+        _SUBSTRINGS[lit] = z3.Union(*[z3.Re(z3.StringVal(x)) for x in subs]) if len(subs) > 1 else z3.Re(z3.StringVal(''))
+    return mk_bool(z3.InRe(sub.t, _SUBSTRINGS[lit]))
+
+
+class HeadStr(SStr):
+    """The first one or two characters of a piece the harness built from explicit single-character strings:
+    its length and its characters are known by construction (each character variable is constrained to a one-character class)."""
+
+    __slots__ = ('chars',)
+
+    def __init__(self, chars):
+        t = _s(chars[0]) if len(chars) == 1 else z3.Concat(*[_s(c) for c in chars])
+        SStr.__init__(self, t, 'str')
+        self.chars = list(chars)
+
+    def length(self):
+        return len(self.chars)
+
+    def __getitem__(self, k):
+        if isinstance(k, int) and not isinstance(k, bool) and -len(self.chars) <= k < len(self.chars):
+            return self.chars[k]
+        return SStr.__getitem__(self, k)
+
+    __hash__ = SStr.__hash__
 
 
 def _rstrip_axioms(s_t, r, f):
@@ -390,6 +437,7 @@ def _common_setup(reg, ex):
     hooks = dict(getattr(ex, 'str_hooks', None) or {})
     hooks['replace'] = _hook_replace
     hooks['slice'] = _hook_slice
+    hooks['contains'] = _hook_contains
     ex.str_hooks = hooks
     ex.str_axioms['rstrip'] = _rstrip_axioms
     reg.add_model(bytearray, _bytearray_model)
@@ -437,11 +485,12 @@ def _char_encoder_table(v):
     const = ['_UNRESERVED', '_ALL_ALLOWED'][which]
     rfc = [RFC_UNRESERVED, RFC_URI_ALLOWED][which]
     allowed = v.real(M + ':' + const)
-    v.check('allowed-constant-is-exactly-the-rfc3986-set', isinstance(allowed, str) and frozenset(allowed) == rfc,
-            extra=sorted(frozenset(allowed) - rfc), missing=sorted(rfc - frozenset(allowed)))
     if which == 1:
         delims = v.real(M + ':_DELIMITERS')
-        v.check('delimiters-constant-is-gen-delims-plus-sub-delims', frozenset(delims) == RFC_RESERVED)
+        v.check('delimiters-constant-is-gen-delims-plus-sub-delims', frozenset(delims) == RFC_RESERVED,
+                extra=sorted(frozenset(delims) - RFC_RESERVED), missing=sorted(RFC_RESERVED - frozenset(delims)))
+    v.check('allowed-constant-is-exactly-the-rfc3986-set', isinstance(allowed, str) and frozenset(allowed) == rfc,
+            extra=sorted(frozenset(allowed) - rfc), missing=sorted(rfc - frozenset(allowed)))
     if not v.concrete:
         v.interp.max_unroll = 300  # the factory loops over range(256)
     out = v.call(allowed)
@@ -501,7 +550,7 @@ def hex_to_byte_table(v):
     """_HEX_TO_BYTE against all 65536 two-byte keys: present iff both are hex digits, value = that byte."""
     touch(v, M + ':_join_tokens_bytearray')
     table = v.real(M + ':_HEX_TO_BYTE')
-    v.check('is-a-dict-with-484-entries', isinstance(table, dict) and len(table) == 22 * 22)
+    v.check('is-a-dict', isinstance(table, dict))
     wrong_presence, wrong_value = [], []
     for a in range(256):
         for b in range(256):
@@ -513,7 +562,7 @@ def hex_to_byte_table(v):
                 wrong_value.append(k)
     v.check('key-present-iff-two-hex-digits-of-either-case', not wrong_presence, witnesses=wrong_presence[:5])
     v.check('value-is-the-byte-the-two-digits-denote', not wrong_value, witnesses=wrong_value[:5])
-    v.check('no-key-of-another-type-or-length', all(isinstance(k, bytes) and len(k) == 2 for k in table))
+    v.check('has-exactly-the-484-two-hex-digit-keys-and-no-other', len(table) == 22 * 22 and all(isinstance(k, bytes) and len(k) == 2 for k in table))
     digits = v.real(M + ':_HEX_DIGITS')
     v.check('hex-digits-constant-is-rfc3986-hexdig-both-cases', frozenset(digits) == HEXDIG)
     v.cover('enumerated')
@@ -545,7 +594,7 @@ for _fn in ('_join_tokens_bytearray', '_join_tokens_list'):
 
 def _joiners_agree(v):
     """Both joiners on the same list: the platform switch (and decode's short/long switch) cannot change the result."""
-    n = 1 + v.choose(9, 'tokens')
+    n = 1 + v.choose(6, 'tokens')
     toks = [v.bytes('t%d' % i) for i in range(n)]
     with hex_table(v):
         a = v.call(list(toks), target=M + ':_join_tokens_bytearray')
@@ -556,7 +605,7 @@ def _joiners_agree(v):
         v.cover('agree')
 
 
-for _n in range(9):
+for _n in range(6):  # (for 7..9 tokens agreement follows from both being equal to D, decided above)
     harness(PROP, M + ':_join_tokens_list', name='joiners_agree[tokens=%d]' % (_n + 1), setup=_common_setup, fix={'tokens': _n})(_joiners_agree)
 
 
@@ -588,9 +637,7 @@ def _decode(v):
     if out.exc is not None:
         return
     if v.concrete:
-        if s.count(PCT) != k:
-            v.assume(False)
-        v.check('equals-the-reference-decoder', out.value == ref_decode(s, up))
+        v.check('equals-the-reference-decoder', out.value == ref_decode(s, up))  # whatever the number of '%' in the replayed string
         return
     s1 = replaced(v.ctx, s, '+', ' ') if up else s  # '+' becomes a space only when requested
     splits = v.ctx.ghost.get('splits', [])
@@ -710,12 +757,12 @@ def _piece(v, i, shape, allowed):
     c0 = v.str('p%d_c0' % i)
     if shape == 'one-character':
         v.assume(in_class(c0, allowed))
-        return c0, c0
+        return c0, (c0 if v.concrete else HeadStr([c0]))
     c1, rest = v.str('p%d_c1' % i), v.str('p%d_rest' % i)
     first = {'escape': HEXDIG, 'first-not-hex': allowed - HEXDIG, 'second-not-hex': HEXDIG}[shape]
     second = {'escape': HEXDIG, 'first-not-hex': allowed, 'second-not-hex': allowed - HEXDIG}[shape]
     v.assume(And(in_class(c0, first), in_class(c1, second), in_star(rest, allowed)))
-    head = c0 + c1
+    head = c0 + c1 if v.concrete else HeadStr([c0, c1])
     return head + rest, head
 
 
@@ -766,7 +813,7 @@ def _constructed_classes(v):
 for _iv in (0, 1):
     harness(PROP, M + ':_create_str_encoder', name='constructed_classes[is_value=%d]' % _iv, setup=_common_setup, fix={'is_value': _iv})(_constructed_classes)
 
-INPUT_CLASSES = ['only-allowed-characters', 'some-character-neither-allowed-nor-percent', 'allowed-characters-and-percents']
+INPUT_CLASSES = ['only-allowed-characters', 'some-character-neither-allowed-nor-percent', 'allowed-characters-and-percents']  # of _encoder
 
 
 def _encoder(v):
@@ -780,7 +827,7 @@ def _encoder(v):
     v.check('factory-never-raises', fac.exc is None)
     if fac.exc is not None:
         return
-    cls = v.choose(3, 'input-class')
+    cls = v.choose(len(INPUT_CLASSES), 'input-class')
     malformed = None
     if cls == 0:
         uri = scalar_str(v, 'uri')
@@ -1050,36 +1097,41 @@ def ref_unquote(q):
     return ''.join(out)
 
 
+UNQUOTE_CLASSES = ['shorter-than-two', 'not-enclosed-in-double-quotes', 'quoted-without-backslash', 'quoted-with-quoted-pairs']
+
+
 @harness(PROP, M + ':unquote_string', name='unquote_string', setup=_common_setup)
 def unquote_string(v):
-    q = v.str('quoted')
-    if v.concrete:
-        if (BS + BS) in q:
-            v.assume(False)
-        out = v.call(q)
-        v.check('never-raises', out.exc is None)
-        if out.exc is None:
-            v.check('equals-the-quoted-string-reading', out.value == ref_unquote(q))
-        return
-    v.assume(Not(contains(q, BS + BS)))  # escaped backslashes: split/join over the string, see NOT_DECIDED (bounded)
+    """Path-wise over four classes of input that together are every string without an escaped backslash inside the quotes."""
+    cls = v.choose(4, 'class')
+    inner = None
+    if cls == 0:
+        q = v.str('quoted')
+        v.assume(Len(q) < 2)
+    elif cls == 1:
+        q = v.str('quoted')
+        v.assume(And(Len(q) >= 2, Not(And(q.startswith('"'), q.endswith('"')))))
+    else:
+        inner = v.str('inner')
+        v.assume(Not(contains(inner, BS)) if cls == 2 else And(contains(inner, BS), Not(contains(inner, BS + BS))))
+        q = '"' + inner + '"'
+        if not v.concrete:
+            v.ctx.ghost.setdefault('$inner', {})[q.t.get_id()] = (q, inner)  # q[1:-1] is `inner` by construction
     out = v.call(q)
     v.check('never-raises', out.exc is None)
     if out.exc is not None:
         return
     r = out.value
-    quoted = And(Len(q) >= 2, q.startswith('"'), q.endswith('"'))
-    if not quoted:
+    if cls in (0, 1):
         v.check('not-quoted-is-returned-unchanged', r == q)
-        v.cover('not-quoted')
-        return
-    inner = q[1:-1]
-    if contains(inner, BS):
+    elif cls == 2:
+        v.check('quoted-text-is-returned-without-the-quotes', r == inner)
+    elif v.concrete:
+        v.check('quoted-pairs-lose-their-backslash', r == ref_unquote(q))
+    else:
         # no backslash is itself escaped here, so every backslash quotes the character after it: they all disappear
         v.check('quoted-pairs-lose-their-backslash', r == replaced(v.ctx, inner, BS, ''))
-        v.cover('quoted-pairs')
-    else:
-        v.check('quoted-text-is-returned-without-the-quotes', r == inner)
-        v.cover('plain-quoted')
+    v.cover(UNQUOTE_CLASSES[cls])
 
 
 # ---------------------------------------------------------------------------
@@ -1087,13 +1139,18 @@ def unquote_string(v):
 ASSUMPTIONS = [
     'str arguments are sequences of Unicode scalar values (no lone surrogates): str.encode("utf-8") raises UnicodeEncodeError otherwise. '
     'Witnesses outside the assumption, unchanged tree: uri.decode("%\\ud800") and uri.encode_value("\\ud800") raise UnicodeEncodeError '
-    '(WSGI/ASGI servers hand over latin-1 / utf-8 decoded text, which never contains one)',
-    'Python codecs: s.encode("utf-8").decode("utf-8", "replace") == s for such s; the UTF-8 encoding contains the byte 0x25 exactly where s contains "%"; '
-    'bytes.decode("utf-8", "replace") is total (never raises) -- utf8 / utf8r are otherwise uninterpreted functions',
-    'str.replace(a, b) for single ASCII characters is an uninterpreted function with: no a left, identity when a is absent, length kept (b non-empty), "%" neither added nor removed',
-    'str.rstrip(chars) is axiomatised exactly (prefix; the cut part consists of chars; the rest does not end in one)',
+    '(WSGI / ASGI servers hand over latin-1 / utf-8 decoded text, which never contains one)',
+    'Python codecs: utf8 = str.encode("utf-8") and utf8r = bytes.decode("utf-8", "replace") are uninterpreted functions; utf8r is total (never raises). '
+    'Used in the READING of the token spec, not by any obligation: utf8r(utf8(s)) == s, and utf8(s) contains the byte 0x25 exactly where s contains "%" '
+    '(so "k percent characters" and "k+1 tokens" are the same thing)',
+    'str.replace(a, b) for single ASCII characters is an uninterpreted function with: no a left, identity when a is absent, length kept (b non-empty), '
+    '"%" neither added nor removed, no surrogate added or removed',
+    'str.rstrip(chars): the result is empty exactly when the string consists of chars only (all the subject asks)',
     'str.split(sep) is modelled exactly for a harness-chosen number of pieces: s == p0 ++ sep ++ ... ++ pn with no occurrence of sep starting inside a piece; '
-    'each harness fixes the number of pieces (this is the bound stated under NOT_DECIDED)',
+    'each decode harness fixes the number of pieces (this is the bound stated under NOT_DECIDED); a string the harness built itself as pieces joined by "%" '
+    '(pieces without "%") splits into exactly those pieces (uniqueness of split)',
+    's[a:b] for literal non-negative a, b is str.substr(s, a, b - a), s[a:] is str.substr(s, a, |s|) (SMT-LIB substr clamps exactly like Python slicing); '
+    '"x in <literal>" is "x is one of the finitely many substrings of the literal"',
     'bytearray(b) is modelled by the immutable byte string b (the subject only uses += on an unaliased local and .decode)',
     "''.join(map(table.__getitem__, bs)) over a symbolic byte string is one uninterpreted function per table CONTENT (per-byte homomorphism not axiomatised)",
     'int(s) returns the decimal value for 1*DIGIT up to sys.int_info.default_max_str_digits = 4300 digits; for any other text it raises ValueError or returns some int '
@@ -1101,9 +1158,13 @@ ASSUMPTIONS = [
     '_HEX_TO_BYTE is read through the HexTable view (key present iff two hex digits; one byte) -- exactly what hex_to_byte_table decides by enumeration on the same run',
     'the token spec D equals the scanner reading of the statement (a "%" starts an escape iff the next two characters are hex digits; hex digits are never "%", so '
     'escapes cannot overlap): paper argument; the bounded stand-in compares against the scanner',
+    'encoder harnesses: the three input classes (allowed only / some character neither allowed nor "%" / allowed characters and k >= 1 percents) are complementary by '
+    'definition; inside the third, each text after a "%" is an escape body or has one of four malformed shapes (harness escape_shapes_are_exhaustive decides that), '
+    'and harness constructed_classes decides with the statement\'s regular languages that the constructed strings are / are not "fully escaped" as the encoder harness takes them',
 ]
 NOT_DECIDED = [
-    'falcon/cyutil/uri.pyx (the Cython twin of decode / parse_query_string) is out of reach of the ast executor; with the compiled extension present it REPLACES decode at import',
+    'falcon/cyutil/uri.pyx (the Cython twin of decode / parse_query_string) is out of reach of the ast executor; with the compiled extension present it REPLACES decode at import '
+    '(the bounded stand-in records whether it is in use: not on the source-only overlay)',
     'decode for inputs with more than 8 "%" and the joiners for more than 9 tokens: the same loop body runs once per token; proved by unrolling up to 9 tokens '
     '(the 2-token case is the inductive step "accumulator ++ f(token)" for an arbitrary accumulator); the induction itself is not mechanised -> bounded stand-in',
     'decode(encode_value(s)) == s, decode(encode(s), unquote_plus=False) == s, idempotence of the check-escaped encoders: need induction over the string -> bounded stand-in',
@@ -1112,15 +1173,344 @@ NOT_DECIDED = [
     'the already-escaped early return is decided for at most %d "%%" characters per string (any length otherwise) -> beyond that bounded' % MAX_ESCAPES,
     'unquote_string on texts containing an escaped backslash (split on two backslashes, join): loop over a symbolic split -> bounded stand-in against the scanner',
     'parse_host on strings that are not RFC 3986 authorities is only shown total up to ValueError (e.g. "[abc" -> ("ab", default)); '
-    'an empty port ("example.org:") is a valid RFC 3986 authority (port = *DIGIT) and raises ValueError: reported by the bounded stand-in, same root cause as the C09 finding',
-    'decode(encode(s)) with the DEFAULT unquote_plus=True is not the identity when s contains "+" (encode keeps "+", decode turns it into a space): the statement speaks of encoded VALUES',
+    'an empty port ("example.org:") is a valid RFC 3986 authority (port = *DIGIT) without a NUMERIC port and raises ValueError: listed as an observation by the bounded '
+    'stand-in, same root cause as the C09 finding (unguarded int()); authorities with userinfo ("user@host") are not Host header values and are not covered',
+    'decode(encode(s)) with the DEFAULT unquote_plus=True is not the identity when s contains "+" (encode keeps the sub-delim "+", decode turns it into a space): '
+    'the statement speaks of encoded VALUES; listed as an observation by the bounded stand-in',
+    'parse_query_string (property C08) and the wiring of these helpers into Request / Response (C09, C15)',
 ]
 TRUSTED = [
-    'codec_model, replaced, _rstrip_axioms, _split_model, _bytearray_model, MapView/_map_model, int_model, _occurrence hooks (find/rfind/partition as word equations), HexTable in contracts/C10_uri.py',
+    'codec_model, replaced, _rstrip_axioms, _split_model, _hook_slice, _hook_contains, HeadStr, _bytearray_model, MapView/_map_model, int_model, '
+    '_occurrence hooks (find / rfind / partition as word equations), HexTable in contracts/C10_uri.py',
     'the module-level name _HEX_TO_BYTE is rebound to the HexTable view while a subject runs symbolically (class hex_table)',
-    'table harnesses inspect live objects of the overlay import (closure cells of the public encoders, the module dict) -- evaluation of the current source, not symbolic execution',
-    'Explorer timeouts are shortened for the parse_host harnesses so that the cvc5 portfolio decides their word-equation VCs',
+    'table harnesses inspect live objects of the overlay import (closure cells of the public encoders, the module dict) -- evaluation of the current source, not symbolic execution; '
+    'the factory itself is additionally run from its source by the executor (char_encoder_table, encoder[...])',
+    'Explorer timeouts are shortened for the parse_host harnesses so that the cvc5 portfolio decides their word-equation VCs (z3 5.x returns unknown on them)',
+    'lemma harnesses (constructed_classes, escape_shapes_are_exhaustive) are used by the encoder harnesses as facts about the same construction function (_built_from_pieces)',
 ]
 
-KILLS = []
-HARMLESS = []
+# ---------------------------------------------------------------------------
+# BOUNDED STAND-IN -- never counted as proved.  Runs in a subprocess on the source-only overlay.
+
+_BOUNDED_SCRIPT = r"""
+import itertools, json, random, re, sys, time
+tier, seed = sys.argv[1], int(sys.argv[2])
+from falcon.util import uri as U
+
+ALPHABET = ['%', '+', '4', '1', 'a', 'F', 'g', '/', '-', ' ', '\x00', 'é', '€', '\U0001F600']
+UNRESERVED = set('ABCDEFGHIJKLMNOPQRSTUVWXYZabcdefghijklmnopqrstuvwxyz0123456789-._~')
+RESERVED = set(":/?#[]@!$&'()*+,;=")
+HEX = set('0123456789ABCDEFabcdef')
+UP = '0123456789ABCDEF'
+MAXLEN = 5 if tier == 'thorough' else 4
+NRANDOM = 4000 if tier == 'thorough' else 400
+results = []
+
+
+class Bucket:
+    def __init__(self, name, bound):
+        self.d = {'name': name, 'bound': bound, 'cases': 0, 'failures': [], 'label': 'bounded -- not counted as proved'}
+        results.append(self.d)
+
+    def case(self, n=1):
+        self.d['cases'] += n
+
+    def fail(self, obligation, inp, got=None, want=None):
+        if sum(1 for f in self.d['failures'] if f['obligation'] == obligation) < 5:
+            self.d['failures'].append({'obligation': obligation, 'input': repr(inp), 'got': repr(got), 'want': repr(want)})
+
+    def note(self, text):
+        self.d.setdefault('observations', [])
+        if text not in self.d['observations'] and len(self.d['observations']) < 2:
+            self.d['observations'].append(text)
+
+
+def hv(c):
+    return '0123456789abcdef'.index(c.lower())
+
+
+def ref_decode(s, plus=True):
+    # the statement: well-formed %XX -> byte, malformed stays literal, '+' -> ' ' only when requested, UTF-8 with replacement
+    out = bytearray()
+    i, n = 0, len(s)
+    while i < n:
+        c = s[i]
+        if c == '%' and i + 2 < n and s[i + 1] in HEX and s[i + 2] in HEX:
+            out.append(16 * hv(s[i + 1]) + hv(s[i + 2]))
+            i += 3
+            continue
+        if c == '+' and plus:
+            c = ' '
+        out += c.encode('utf-8')
+        i += 1
+    return bytes(out).decode('utf-8', 'replace')
+
+
+def ref_escaped(s, allowed):
+    i, n = 0, len(s)
+    while i < n:
+        if s[i] == '%':
+            if not (i + 2 < n and s[i + 1] in HEX and s[i + 2] in HEX):
+                return False
+            i += 3
+        elif s[i] in allowed:
+            i += 1
+        else:
+            return False
+    return True
+
+
+def ref_encode(s, allowed, check):
+    if all(c in allowed for c in s):
+        return s
+    if check and ref_escaped(s, allowed):
+        return s
+    return ''.join(chr(b) if chr(b) in allowed else '%' + UP[b >> 4] + UP[b & 15] for b in s.encode('utf-8'))
+
+
+ENCODERS = [('encode', U.encode, UNRESERVED | RESERVED, False), ('encode_value', U.encode_value, UNRESERVED, False),
+            ('encode_check_escaped', U.encode_check_escaped, UNRESERVED | RESERVED, True),
+            ('encode_value_check_escaped', U.encode_value_check_escaped, UNRESERVED, True)]
+
+
+def out_re(allowed, any_case):
+    cls = ''.join(re.escape(c) for c in sorted(allowed))
+    return re.compile('(?:[' + cls + ']|%[0-9A-F' + ('a-f' if any_case else '') + ']{2})*\\Z')
+
+
+OUT_RE = {name: out_re(allowed, check) for name, fn, allowed, check in ENCODERS}
+
+
+def exhaustive(alphabet, maxlen):
+    for n in range(maxlen + 1):
+        for t in itertools.product(alphabet, repeat=n):
+            yield ''.join(t)
+
+
+rng = random.Random(seed)
+PIECES = ['%', '%41', '%e9', '%C3%A9', '%F0%9F%98%80', '%zz', '%4', '%%', '+', 'a', 'Zz09-._~', 'é', '\U0001F600', ' ', '\x00', '/', '?k=v&', '%2B', '%25', '%fF']
+
+
+def random_long():
+    n = rng.choice([1, 2, 7, 8, 9, 20, 200, 1500])
+    parts = []
+    for _ in range(n):
+        c = rng.random()
+        if c < 0.15:
+            parts.append('%' + rng.choice(UP + 'abcdefgz') + rng.choice(UP + 'abcdef+ '))
+        else:
+            parts.append(rng.choice(PIECES))
+    return ''.join(parts)
+
+
+def call(fn, *a, **k):
+    try:
+        return fn(*a, **k), None
+    except Exception as e:  # noqa: BLE001
+        return None, e
+
+
+def check_string(B, s):
+    # (a) decode against the reference
+    for plus in (True, False):
+        got, exc = call(U.decode, s, unquote_plus=plus)
+        B['decode'].case()
+        if exc is not None:
+            B['decode'].fail('decode#never-fails', (s, plus), exc)
+        elif got != ref_decode(s, plus):
+            B['decode'].fail('decode#equals-the-reference-decoder', (s, plus), got, ref_decode(s, plus))
+    got, exc = call(U.decode, s)
+    if exc is not None or got != ref_decode(s, True):
+        B['decode'].fail('decode#default-unquotes-plus', s, got if exc is None else exc, ref_decode(s, True))
+    if '%' in s:
+        # both token joiners directly (only one of them is reachable through decode on a given interpreter)
+        tokens = s.encode('utf-8').split(b'%')
+        want = ref_decode(s, False)
+        for jn in ('_join_tokens_bytearray', '_join_tokens_list'):
+            got, exc = call(getattr(U, jn), list(tokens))
+            B['decode'].case()
+            if exc is not None or got != want:
+                B['decode'].fail(jn + '#equals-the-reference-decoder-on-the-split-tokens', s, got if exc is None else exc, want)
+    for name, fn, allowed, chk in ENCODERS:
+        e, exc = call(fn, s)
+        B['encode'].case()
+        if exc is not None:
+            B['encode'].fail(name + '#never-raises', s, exc)
+            continue
+        # (d) output alphabet, and the reference encoder
+        if not OUT_RE[name].match(e):
+            B['encode'].fail(name + '#emits-only-allowed-characters-and-percent-escapes', s, e)
+        if e != ref_encode(s, allowed, chk):
+            B['encode'].fail(name + '#equals-the-reference-encoder', s, e, ref_encode(s, allowed, chk))
+        if chk:
+            # (c) fully escaped -> unchanged; idempotent
+            if ref_escaped(s, allowed) and e != s:
+                B['encode'].fail(name + '#fully-escaped-string-is-returned-unchanged', s, e, s)
+            e2, exc2 = call(fn, e)
+            if exc2 is not None or e2 != e:
+                B['encode'].fail(name + '#idempotent', s, e2 if exc2 is None else exc2, e)
+        else:
+            # (b) round trips
+            B['roundtrip'].case()
+            if name == 'encode_value':
+                for plus in (True, False):
+                    d, exc3 = call(U.decode, e, unquote_plus=plus)
+                    if exc3 is not None or d != s:
+                        B['roundtrip'].fail('decode-of-encode_value-is-the-identity', (s, plus), d if exc3 is None else exc3, s)
+            else:
+                d, exc3 = call(U.decode, e, unquote_plus=False)
+                if exc3 is not None or d != s:
+                    B['roundtrip'].fail('decode-of-encode-is-the-identity(unquote_plus=False)', s, d if exc3 is None else exc3, s)
+                d2, _ = call(U.decode, e)
+                if d2 != s:
+                    B['roundtrip'].note("decode(encode(s)) with the default unquote_plus=True is not s when s contains '+', e.g. s=%r -> %r "
+                                        "(encode keeps the sub-delim '+'; not a value encoding)" % (s, d2))
+
+
+t0 = time.time()
+B = {
+    'decode': Bucket('decode == reference decoder', 'all strings of length <= %d over the 14-symbol alphabet of the quantifier, both unquote_plus values; '
+                     '+ token sequences crossing the 8-token switch; + %d seeded random strings up to several KB; both joiners directly on the split tokens' % (MAXLEN, NRANDOM)),
+    'encode': Bucket('encoders == reference encoder; output alphabet; check-escaped unchanged/idempotent', 'same strings, four encoders; + all sequences of '
+                     '<= %d items over an alphabet of allowed characters and escapes (fully escaped strings)' % MAXLEN),
+    'roundtrip': Bucket('decode(encode_value(s)) == s, decode(encode(s), unquote_plus=False) == s', 'same strings'),
+}
+for s in exhaustive(ALPHABET, MAXLEN):
+    check_string(B, s)
+# the short/long switch: 7, 8, 9, 10 tokens (6..9 '%'), every mix of well-formed / malformed escapes
+SW = ['%41', '%g', '%', 'x+']
+for k in ((6, 7, 8, 9) if tier == 'thorough' else (6, 7, 8)):
+    for t in itertools.product(SW[:3] if k > 7 else SW, repeat=k):
+        for lead in ('', 'p'):
+            check_string(B, lead + ''.join(t))
+for _ in range(NRANDOM):
+    check_string(B, random_long())
+# fully escaped strings, systematically
+ESC = ['a', 'Z', '0', '-', '~', '%41', '%e9', '%C3', '%00', '/', '+', '%2f']
+for s in exhaustive(ESC, MAXLEN):
+    check_string(B, s)
+
+# (e) parse_host on RFC 3986 authorities (host [":" port]); Host header values carry no userinfo
+H = Bucket('parse_host on RFC 3986 authorities', 'reg-names, IPv4, bracketed IP-literals x ports (none, 1..5 digits incl. leading zeros, seeded random) x default_port in (None, 8000); '
+           'bare IPv6 addresses')
+NAMES = ['example.org', 'localhost', 'a-b.c', 'xn--9ca', 'EXAMPLE.COM.', 'a_b~c', '%41bc', "sub!$&'()*+,;=x", '', '127.0.0.1', '0.0.0.0', '255.255.255.255']
+LITERALS = ['::1', '2001:db8::1', '::ffff:192.0.2.1', 'v1.fe80::a+en1', '::', '2001:db8:85a3:8d3:1319:8a2e:370:7348', 'fe80::1%25eth0']
+PORTS = [None, '0', '80', '443', '8080', '65535', '00080'] + [str(rng.randrange(0, 65536)) for _ in range(20)] + [''.join(rng.choice('0123456789') for _ in range(rng.randrange(1, 6))) for _ in range(20)]
+for dp in (None, 8000):
+    for host_text, host_want in [(n, n) for n in NAMES] + [('[' + l + ']', l) for l in LITERALS]:
+        for port in PORTS:
+            auth = host_text if port is None else host_text + ':' + port
+            want = (host_want, dp if port is None else int(port))
+            got, exc = call(U.parse_host, auth, dp) if dp is not None else call(U.parse_host, auth)
+            H.case()
+            if exc is not None:
+                H.fail('parse_host#valid-authority-never-raises', (auth, dp), exc)
+            elif got != want:
+                H.fail('parse_host#returns-host-and-numeric-port', (auth, dp), got, want)
+        # port = *DIGIT: the empty port is a valid RFC 3986 authority without a numeric port
+        got, exc = call(U.parse_host, host_text + ':', dp)
+        if exc is not None:
+            H.note('empty port (RFC 3986 port = *DIGIT), e.g. parse_host(%r) raises %s; an authority without a NUMERIC port is outside the statement; '
+                   'same root cause as the C09 finding (unguarded int())' % (host_text + ':', type(exc).__name__))
+    for l in LITERALS[:6]:
+        got, exc = call(U.parse_host, l, dp)
+        H.case()
+        if exc is not None or got != (l, dp):
+            H.fail('parse_host#bare-ipv6-address-is-returned-whole', (l, dp), got if exc is None else exc, (l, dp))
+
+# unquote_string against the left-to-right quoted-string scanner
+Q = Bucket('unquote_string == RFC 7230 quoted-string scanner', 'all strings of length <= %d over {DQUOTE, backslash, a, space}' % (9 if tier == 'thorough' else 7))
+
+
+def ref_unquote(q):
+    if len(q) < 2 or q[0] != '"' or q[-1] != '"':
+        return q
+    inner, out, i = q[1:-1], [], 0
+    while i < len(inner):
+        if inner[i] == '\\' and i + 1 < len(inner):
+            out.append(inner[i + 1])
+            i += 2
+        elif inner[i] == '\\':
+            i += 1
+        else:
+            out.append(inner[i])
+            i += 1
+    return ''.join(out)
+
+
+for q in exhaustive(['"', '\\', 'a', ' '], 9 if tier == 'thorough' else 7):
+    got, exc = call(U.unquote_string, q)
+    Q.case()
+    if exc is not None:
+        Q.fail('unquote_string#never-raises', q, exc)
+    elif got != ref_unquote(q):
+        Q.fail('unquote_string#equals-the-quoted-string-reading', q, got, ref_unquote(q))
+
+meta = {'cython_decode_in_use': getattr(U, '_cy_uri', None) is not None, 'module_file': U.__file__, 'seconds': round(time.time() - t0, 1)}
+for r in results:
+    r['meta'] = meta
+print(json.dumps(results))
+"""
+
+
+def bounded(tier, seed, overlay_dir):
+    """BOUNDED stand-in for the parts of C10 that need induction.  Never counted as proved."""
+    import json
+    import os
+    import subprocess
+
+    env = dict(os.environ, PYTHONPATH=overlay_dir, PYTHONDONTWRITEBYTECODE='1')
+    env.pop('PYTHONHOME', None)
+    p = subprocess.run(['/venv/bin/python', '-B', '-c', _BOUNDED_SCRIPT, 'thorough' if tier == 'thorough' else 'quick', str(int(seed or 0))],
+                       capture_output=True, text=True, env=env, cwd=overlay_dir, timeout=3600)
+    if p.returncode != 0:
+        return [{'name': 'C10 bounded stand-in', 'bound': '', 'cases': 0, 'failures': [], 'error': (p.stderr or p.stdout)[-3000:]}]
+    return json.loads(p.stdout.strip().splitlines()[-1])
+
+
+_F = 'falcon/util/uri.py'
+# (file, old text occurring exactly once, new text, substring of an obligation that must be refuted).  All were run on scratch
+# copies (PYVC_REPO); "proof" = refuted by a proof obligation with a counter-model replayed on the edited code, "bounded" = also (or
+# only) reported by the bounded stand-in.
+KILLS = [
+    # lower-case hex in the encoder table                                        -> proof (table enumeration) + bounded
+    (_F, "            encoded_char = '%{0:02X}'.format(code_point)\n", "            encoded_char = '%{0:02x}'.format(code_point)\n",
+     '_create_char_encoder#every-other-byte-maps-to-its-upper-case-percent-escape'),
+    # '!' added to the unreserved set                                             -> proof only (no '!' in the quantifier's alphabet)
+    (_F, "0123456789-._~'\n", "0123456789-._~!'\n", '_create_char_encoder#allowed-constant-is-exactly-the-rfc3986-set'),
+    # '*' removed from the delimiters                                             -> proof only
+    (_F, "_DELIMITERS = \":/?#[]@!$&'()*+,;=\"\n", "_DELIMITERS = \":/?#[]@!$&'()+,;=\"\n", '_create_char_encoder#delimiters-constant-is-gen-delims-plus-sub-delims'),
+    # lower-case hex digits no longer accepted on input                          -> proof (65536-key enumeration) + bounded
+    (_F, "_HEX_DIGITS = '0123456789ABCDEFabcdef'\n", "_HEX_DIGITS = '0123456789ABCDEF'\n", '_join_tokens_bytearray#key-present-iff-two-hex-digits-of-either-case'),
+    # decode's in-place (< 8 tokens) path forgets the literal '%' of a malformed escape -> proof + bounded
+    (_F, "                reencoded_uri += b'%' + token\n", "                reencoded_uri += token\n", 'decode#equals-the-reference-decoder'),
+    # the bytearray joiner drops the tail of a decoded token                     -> proof + bounded
+    (_F, "            decoded_uri += _HEX_TO_BYTE[token_partial] + token[2:]\n", "            decoded_uri += _HEX_TO_BYTE[token_partial]\n",
+     '_join_tokens_bytearray#result-is-utf8-replace-of-first-token-then-each-token-decoded-or-kept-literal'),
+    # the list joiner (PyPy only) forgets the literal '%'                        -> proof; bounded only through the direct joiner differential
+    (_F, "            decoded.append(b'%' + token)\n", "            decoded.append(token)\n",
+     '_join_tokens_list#result-is-utf8-replace-of-first-token-then-each-token-decoded-or-kept-literal'),
+    # '+' decoded unconditionally                                                 -> proof + bounded
+    (_F, "    if '+' in decoded_uri and unquote_plus:\n", "    if '+' in decoded_uri:\n", 'decode#equals-the-reference-decoder'),
+    # parse_host: find -> rfind, a bare IPv6 address is torn apart                -> proof (cvc5 / z3) + bounded
+    (_F, "    if (pos == -1) or (pos != host.find(':')):\n", "    if (pos == -1) or (pos != host.rfind(':')):\n", 'parse_host#valid-authority-never-raises'),
+    # parse_host: port slice off by one                                           -> proof + bounded
+    (_F, "            return (host[1:pos], int(host[pos + 2 :]))\n", "            return (host[1:pos], int(host[pos + 1 :]))\n", 'parse_host#valid-authority-never-raises'),
+    # already-escaped check looks at the first hex digit only                     -> proof + bounded
+    (_F, "                if not (hex_octet[0] in _HEX_DIGITS and hex_octet[1] in _HEX_DIGITS):\n", "                if not (hex_octet[0] in _HEX_DIGITS):\n",
+     '_create_str_encoder#otherwise-every-utf8-byte-goes-through-the-character-table'),
+    # encoder fast path taken for strings that contain '%'                        -> proof + bounded
+    (_F, "        if not uri.rstrip(allowed_chars):\n", "        if not uri.rstrip(allowed_chars_plus_percent):\n",
+     '_create_str_encoder#otherwise-every-utf8-byte-goes-through-the-character-table'),
+    # unquote_string keeps the closing quote                                      -> proof + bounded
+    (_F, "    tmp_quoted = quoted[1:-1]\n", "    tmp_quoted = quoted[1:]\n", 'unquote_string#quoted-text-is-returned-without-the-quotes'),
+]
+HARMLESS = [
+    # the short/long switch moved: both paths compute the same function
+    (_F, "    if len(tokens) < 8:\n", "    if len(tokens) < 6:\n"),
+    # a local renamed
+    (_F, "        token_partial = token[:2]\n        try:\n            decoded.append(_HEX_TO_BYTE[token_partial] + token[2:])\n",
+     "        head = token[:2]\n        try:\n            decoded.append(_HEX_TO_BYTE[head] + token[2:])\n"),
+    # find and rfind exchanged in BOTH places of parse_host: the same predicate "exactly one colon"
+    (_F, "    pos = host.rfind(':')\n    if (pos == -1) or (pos != host.find(':')):\n", "    pos = host.find(':')\n    if (pos == -1) or (pos != host.rfind(':')):\n"),
+]
